@@ -1,6 +1,7 @@
 //! Verification harness crate for RainDB (Engine A harnesses live behind cfg(kani); native replay in bin/replay.rs).
 #![recursion_limit = "512"]
 pub mod faultfs;
+pub mod hookfs;
 pub mod onefs;
 pub mod util;
 #[cfg(kani)]
